@@ -1,4 +1,5 @@
 import re
+from decimal import Decimal
 
 
 class _RouteFilterExhaust:
@@ -26,12 +27,17 @@ def _rex(conf):
     return conf, f_in, None
 
 
+def _float_out(x):
+    # positional notation only: the float filter does not match an exponent ('1e-05')
+    return format(Decimal(repr(float(x))), 'f')
+
+
 class FilterFactory:
     filters = {
         're':    lambda conf: (conf, None, None),
         'rex':   _rex,
         'int':   lambda conf: (r'-?\d+', int, lambda x: str(int(x))),
-        'float': lambda conf: (r'-?\d+(\.\d+)?', float, lambda x: str(float(x))),
+        'float': lambda conf: (r'-?\d+(\.\d+)?', float, _float_out),
         'path':  lambda conf: (f'.+(?={re.escape(conf)})' if conf else '.+$', None, None)
     }
     _filter_cache = {}
